@@ -12,8 +12,11 @@
    under the virtual clock of the correspondence (testing/synctest) all reads inside one Drop return the same
    instant [now], and that is how the model is written.
 
-   The routine-local ConntrackCache (firewall/cache.go) is not modelled: Drop is taken with a nil cache (the cache
-   is a documented bounded staleness of one cache tick; see DESIGN.md section 6). *)
+   [drop] is Drop with a nil routine cache. [drop_c] is Drop with a routine-local ConntrackCache (firewall/cache.go):
+   a set of tuples consulted before the table; a hit passes the packet without touching the table (no expiry check,
+   no revalidation, no refresh of Expires); a tuple enters the cache only at the end of inConns, i.e. on a table hit
+   that was not expired and passed revalidation (addConn does not fill it). The cache is emptied when its ticker
+   has fired (model/FwReload.v). *)
 From Coq Require Import List ZArith NArith Bool.
 Import ListNotations.
 From NV Require Import model.Wheel gen.Consts_Conntrack.
@@ -142,5 +145,19 @@ Definition drop (fw : fwcfg) (peer : N) (now : Z) (incoming : bool) (t : tuple) 
     if hit then (true, ct1)
     else if allowed (f_rules fw) peer incoming t then (true, add_conn fw now t incoming ct1)
     else (false, ct1).
+
+(* the routine cache: map[firewall.Packet]struct{} *)
+Definition in_cache (t : tuple) (ch : list tuple) : bool := existsb (tuple_eqb t) ch.
+
+(* Drop with a non-nil routine cache ch *)
+Definition drop_c (fw : fwcfg) (peer : N) (now : Z) (incoming : bool) (t : tuple) (ch : list tuple) (ct : ctrack)
+  : bool * list tuple * ctrack :=
+  if negb (addr_ok (f_rules fw) peer t) then (false, ch, ct)
+  else if in_cache t ch then (true, ch, ct)
+  else
+    let (hit, ct1) := in_conns fw peer now t ct in
+    if hit then (true, t :: ch, ct1)
+    else if allowed (f_rules fw) peer incoming t then (true, ch, add_conn fw now t incoming ct1)
+    else (false, ch, ct1).
 
 End Drop.
